@@ -117,6 +117,8 @@ func (c10) Plan(tier string, seed int64) []core.Scenario {
 	// every built-in method x every params shape against a client that has a live channel and an in-flight call
 	out = append(out, core.Sc("builtins-client").WithN("part", 0), core.Sc("builtins-client").WithN("part", 1), core.Sc("builtins-client").WithN("part", 2))
 	out = append(out, core.Sc("calls-plain-client").WithN("plain", 1))
+	// hostile answers to the server's own reverse calls (incl. a channel-returning one), repeated
+	out = append(out, core.Sc("rev-answers"))
 	out = append(out, core.Sc("limits"))
 	for i := 0; i < nhttp; i++ {
 		out = append(out, core.Sc("http-mut").WithN("n", 400))
@@ -143,6 +145,8 @@ func (p c10) Run(sc core.Scenario) core.Result {
 		p.attackServer(sc, r, seqs, fmt.Sprintf("grid[%d:%d]", sc.I("off"), end))
 	case "seq-server":
 		p.attackServer(sc, r, c10Sequences(sc.Rand(), sc.I("n")), "sequences")
+	case "rev-answers":
+		p.revAnswers(sc, r)
 	case "grid-client":
 		g := c10Grid()
 		end := sc.I("off") + c10Chunk
@@ -380,6 +384,81 @@ func (c10) attackServer(sc core.Scenario, r *core.R, seqs [][]wsMsg, label strin
 	if len(seqs) > 0 {
 		r.Sample(map[string]interface{}{"target": "server", "inputs": len(seqs), "example": seqString(seqs[len(seqs)/2]), "host_crashes": crashes})
 	}
+}
+
+// revAnswers: the server makes reverse calls (plain and channel-returning) to a hostile client which
+// answers them with malformed, duplicated and repeated responses. The connection must keep serving
+// valid requests (these are valid WebSocket messages) and the server must survive.
+func (c10) revAnswers(sc core.Scenario, r *core.R) {
+	host, err := StartHost("server")
+	if err != nil {
+		r.Inconclusive("host: %v", err)
+		return
+	}
+	defer host.Kill()
+	results := []string{`"notanumber"`, `{}`, `[]`, `null`, `-1`, `1.5`, `true`, `18446744073709551616`, `7`}
+	inputs := 0
+	for _, method := range []string{"S.RevSub", "S.Rev"} {
+		for _, res := range results {
+			for _, copies := range []int{1, 2, 3, 5} {
+				conn, _, err := websocket.DefaultDialer.Dial("ws://"+host.Addr, http.Header{})
+				if err != nil {
+					r.Violate("server-wedged", "cannot connect to the host: %v", err)
+					return
+				}
+				params := `["Tqx1"]`
+				if method == "S.Rev" {
+					params = `["Tqx1",1,0]`
+				}
+				conn.WriteMessage(websocket.TextMessage, []byte(fmt.Sprintf(`{"jsonrpc":"2.0","id":"fwd","method":%q,"params":%s}`, method, params)))
+				// wait for the server's reverse request and learn its id
+				conn.SetReadDeadline(time.Now().Add(core.Eff(core.Grace)))
+				revID := ""
+				for revID == "" {
+					_, msg, err := conn.ReadMessage()
+					if err != nil {
+						break
+					}
+					var f struct {
+						ID     json.RawMessage `json:"id"`
+						Method string          `json:"method"`
+					}
+					if json.Unmarshal(msg, &f) == nil && strings.HasPrefix(f.Method, "R.") {
+						revID = string(f.ID)
+					}
+				}
+				if revID == "" {
+					r.Inconclusive("the server never sent its reverse request")
+					conn.Close()
+					return
+				}
+				hostile := fmt.Sprintf(`{"jsonrpc":"2.0","id":%s,"result":%s}`, revID, res)
+				for c := 0; c < copies; c++ {
+					conn.WriteMessage(websocket.TextMessage, []byte(hostile))
+				}
+				inputs++
+				r.Obs("hostile_inputs", 1)
+				r.AddKey(core.Hash("revans", method, res, fmt.Sprint(copies)))
+				if err := probeSame(conn, inputs); err != nil {
+					time.Sleep(20 * time.Millisecond)
+					if !host.Alive() {
+						r.Violate("host-crash:"+CrashSite(host.Stderr()), "server process died after %d copies of the answer %s to its reverse call %s; stderr: %s", copies, hostile, method, core.Trunc(host.Stderr(), 1200))
+						return
+					}
+					r.Violate("connection-wedged", "after %d copies of the answer %s to the server's reverse call (%s) the same connection no longer answers a valid request: %v", copies, hostile, method, err)
+				}
+				conn.Close()
+			}
+		}
+	}
+	if err := probeOther(host.Addr, 424242); err != nil {
+		r.Violate("server-wedged", "after hostile answers to reverse calls a valid request on a fresh connection is not answered: %v", err)
+	}
+	if clean, detail := host.Stop(); !clean {
+		r.Violate("host-crash:"+CrashSite(host.Stderr()), "server process did not exit cleanly: %s; stderr: %s", detail, core.Trunc(host.Stderr(), 1200))
+	}
+	r.Key("rev-answers", true)
+	r.Sample(map[string]interface{}{"target": "server making reverse calls", "hostile_answers": inputs})
 }
 
 // attackClient: a fake server feeds hostile frames to a real client living in a host process.
